@@ -777,7 +777,7 @@ func c17Random(r *Rng) C17Case {
 							bp["schema"] = map[string]any{"type": "object", "properties": map[string]any{
 								"note": map[string]any{"type": "string", "x-nullable": true},
 								"tags": map[string]any{"type": "array", "items": map[string]any{"type": "string", "x-nullable": true}},
-								"v": c17Schema(r, 1, defNames)}}
+								"v":    c17Schema(r, 1, defNames)}}
 						}
 					}
 					params = append(params, bp)
